@@ -397,6 +397,10 @@ impl<'a, 'tcx> Ex<'a, 'tcx> {
                     .set(
                         "by_ref",
                         J::Bool(!matches!(mode.0, hir::ByRef::No)),
+                    )
+                    .set(
+                        "by_ref_mut",
+                        J::Bool(matches!(mode.0, hir::ByRef::Yes(_, m) if m.is_mut())),
                     );
                 if let Some(sp) = subpattern {
                     o.put("sub", self.pat(sp));
